@@ -2,6 +2,7 @@ import JunoModel.C07.Proofs
 import JunoModel.C07.ProofsBlob
 import JunoModel.C07.ProofsVal
 import JunoModel.C07.ProofsBin
+import JunoModel.C07.ProofsStore
 /-!
 C07 — property theorems (statements only; helper lemmas are in `Proofs*.lean`).
 Every theorem in this module is an obligation listed in evidence/C07.json with its axioms.
@@ -26,42 +27,19 @@ theorem encode_injective (a b : Cbor) (ha : a.wf = true) (hb : b.wf = true) (h :
   encode_inj a b ha hb h
 
 
-/-! ### Decoder limits (finding: values above a limit are written and can never be read)
+/-! ### Decoder limits — regression witness for a FIXED defect (b59796a)
 
-`cbor_roundtrip` is about the decoder without resource limits. The real one refuses items with more
-than `maxArray` elements, `maxMap` pairs or `maxNest` nested arrays/maps/tags, while the encoder
-writes anything: the round trip holds exactly for the values within the limits. -/
+The real decoder is `decodeAll` restricted to items within `DecOptions.MaxArrayElements /
+MaxMapPairs / MaxNestedLevels` (`decodeAllLimited`, Model.lean; the definitional lemmas
+`limited_roundtrip / limited_rejects / limited_rejects_big` are in Proofs.lean, not obligations).
+Before b59796a juno ran with the library defaults 131072 pairs / 32 levels; it now runs
+10485760 / 10485760 / 1024 (probed by the harness on every run, nesting counting convention
+compared with the model). The witness below is the shape of the old counterexample at a small
+limit; it is kept so that the defect has a proved negation, not as a statement about today's code. -/
 
-/-- Within the limits the limited decoder is the identity on encoded values … -/
-theorem limited_roundtrip (l : DecLimits) (v : Cbor) (hwf : v.wf = true) (h : v.within l l.maxNest = true) :
-    decodeAllLimited l v.encode = some v := by
-  simp [decodeAllLimited, decodeAll_encode v hwf, h]
-
-/-- … and above any of them it rejects what the encoder wrote (full statement `∀ v, decodeAllLimited l
-v.encode = some v` is false: `limits_witness`). -/
-theorem limited_rejects (l : DecLimits) (v : Cbor) (hwf : v.wf = true) (h : v.within l l.maxNest = false) :
-    decodeAllLimited l v.encode = none := by
-  simp [decodeAllLimited, decodeAll_encode v hwf, h]
-
-/-- Any map with more pairs than `maxMap`, any array with more elements than `maxArray`. -/
-theorem limited_rejects_big (l : DecLimits) :
-    (∀ kvs : List (Cbor × Cbor), (Cbor.map kvs).wf = true → l.maxMap < kvs.length →
-      decodeAllLimited l (Cbor.map kvs).encode = none) ∧
-    (∀ xs : List Cbor, (Cbor.array xs).wf = true → l.maxArray < xs.length →
-      decodeAllLimited l (Cbor.array xs).encode = none) := by
-  constructor
-  · intro kvs hwf h
-    apply limited_rejects l _ hwf
-    simp [Cbor.within]
-    intro _ h2; omega
-  · intro xs hwf h
-    apply limited_rejects l _ hwf
-    simp [Cbor.within]
-    intro _ h2; omega
-
-/-- Concrete witness with the library defaults juno runs with for maps and nesting: three nested
-arrays under a limit of two levels (the 33-level item the harness replays is the same shape). -/
-theorem limits_witness :
+/-- An item nested one level deeper than the decoder allows is written by the encoder (it decodes
+without limits) and rejected by the limited decoder. -/
+theorem nesting_limit_rejects_own_output_before_b59796a :
     (Cbor.array [.array [.array [.uint 1]]]).wf = true ∧
     (decodeAll (Cbor.array [.array [.array [.uint 1]]]).encode).isSome = true ∧
     (decodeAllLimited ⟨10485760, 131072, 3⟩ (Cbor.array [.array [.array [.uint 1]]]).encode).isSome = true ∧
@@ -72,7 +50,8 @@ theorem limits_witness :
 
 `encT/decT`, `encR/decR` are the item codecs; the only thing assumed of them is that decoding
 the exact bytes of an encoded item gives the item back (instantiated with the CBOR codec above in
-section 3). No relation between the number of transactions and receipts is needed. -/
+section 3). No relation between the number of transactions and receipts is needed. Counts and
+offsets are Go `int`s: all size hypotheses are `< 2^63` (the header decoder rejects larger values). -/
 
 section Blob
 variable {α β : Type} (encT : α → Bytes) (encR : β → Bytes) (decT : Bytes → Option α) (decR : Bytes → Option β)
@@ -80,15 +59,15 @@ variable {α β : Type} (encT : α → Bytes) (encR : β → Bytes) (decT : Byte
 /-- What is written for a block can be read back as a blob (header + data), for every block
 including the empty one. -/
 theorem blob_unmarshal_marshal (txs : List α) (rcs : List β)
-    (h1 : txs.length < 18446744073709551616) (h2 : rcs.length < 18446744073709551616)
-    (h3 : (concatEnc encT txs ++ concatEnc encR rcs).length < 18446744073709551616) :
+    (h1 : txs.length < 9223372036854775808) (h2 : rcs.length < 9223372036854775808)
+    (h3 : (concatEnc encT txs ++ concatEnc encR rcs).length < 9223372036854775808) :
     Blob.unmarshal (Blob.build encT encR txs rcs).marshal = some (Blob.build encT encR txs rcs) :=
   unmarshal_marshal _ (build_wf encT encR txs rcs h1 h2 h3)
 
 /-- Transaction by (block, index): index `i` of the stored bytes is `txs[i]` — first, last, any. -/
 theorem blob_get_tx (txs : List α) (rcs : List β) (hT : ∀ a ∈ txs, decT (encT a) = some a)
-    (h1 : txs.length < 18446744073709551616) (h2 : rcs.length < 18446744073709551616)
-    (h3 : (concatEnc encT txs ++ concatEnc encR rcs).length < 18446744073709551616)
+    (h1 : txs.length < 9223372036854775808) (h2 : rcs.length < 9223372036854775808)
+    (h3 : (concatEnc encT txs ++ concatEnc encR rcs).length < 9223372036854775808)
     (i : Nat) (h : i < txs.length) :
     readBlob (Blob.build encT encR txs rcs).marshal (fun b => b.getTx decT i) = .ok txs[i] := by
   simp only [readBlob, blob_unmarshal_marshal encT encR txs rcs h1 h2 h3]
@@ -96,8 +75,8 @@ theorem blob_get_tx (txs : List α) (rcs : List β) (hT : ∀ a ∈ txs, decT (e
 
 /-- Receipt by (block, index). -/
 theorem blob_get_rc (txs : List α) (rcs : List β) (hR : ∀ a ∈ rcs, decR (encR a) = some a)
-    (h1 : txs.length < 18446744073709551616) (h2 : rcs.length < 18446744073709551616)
-    (h3 : (concatEnc encT txs ++ concatEnc encR rcs).length < 18446744073709551616)
+    (h1 : txs.length < 9223372036854775808) (h2 : rcs.length < 9223372036854775808)
+    (h3 : (concatEnc encT txs ++ concatEnc encR rcs).length < 9223372036854775808)
     (i : Nat) (h : i < rcs.length) :
     readBlob (Blob.build encT encR txs rcs).marshal (fun b => b.getRc decR i) = .ok rcs[i] := by
   simp only [readBlob, blob_unmarshal_marshal encT encR txs rcs h1 h2 h3]
@@ -105,8 +84,8 @@ theorem blob_get_rc (txs : List α) (rcs : List β) (hR : ∀ a ∈ rcs, decR (e
 
 /-- An index past the end is `ErrKeyNotFound` (never a neighbour's bytes, never a panic). -/
 theorem blob_get_out_of_range (txs : List α) (rcs : List β)
-    (h1 : txs.length < 18446744073709551616) (h2 : rcs.length < 18446744073709551616)
-    (h3 : (concatEnc encT txs ++ concatEnc encR rcs).length < 18446744073709551616) (i : Nat) :
+    (h1 : txs.length < 9223372036854775808) (h2 : rcs.length < 9223372036854775808)
+    (h3 : (concatEnc encT txs ++ concatEnc encR rcs).length < 9223372036854775808) (i : Nat) :
     (txs.length ≤ i → readBlob (Blob.build encT encR txs rcs).marshal (fun b => b.getTx decT i) = .notFound) ∧
     (rcs.length ≤ i → readBlob (Blob.build encT encR txs rcs).marshal (fun b => b.getRc decR i) = .notFound) := by
   simp only [readBlob, blob_unmarshal_marshal encT encR txs rcs h1 h2 h3]
@@ -115,8 +94,8 @@ theorem blob_get_out_of_range (txs : List α) (rcs : List β)
 /-- All transactions / all receipts of a block, in order (hence also the counts). -/
 theorem blob_all (txs : List α) (rcs : List β)
     (hT : ∀ a ∈ txs, decT (encT a) = some a) (hR : ∀ a ∈ rcs, decR (encR a) = some a)
-    (h1 : txs.length < 18446744073709551616) (h2 : rcs.length < 18446744073709551616)
-    (h3 : (concatEnc encT txs ++ concatEnc encR rcs).length < 18446744073709551616) :
+    (h1 : txs.length < 9223372036854775808) (h2 : rcs.length < 9223372036854775808)
+    (h3 : (concatEnc encT txs ++ concatEnc encR rcs).length < 9223372036854775808) :
     readBlob (Blob.build encT encR txs rcs).marshal (fun b => b.allTx decT) = .ok txs ∧
     readBlob (Blob.build encT encR txs rcs).marshal (fun b => b.allRc decR) = .ok rcs := by
   simp only [readBlob, blob_unmarshal_marshal encT encR txs rcs h1 h2 h3]
@@ -127,8 +106,8 @@ theorem blob_all (txs : List α) (rcs : List β)
 exactly the encoding of item `i` (so every per-record statement of sections 3 and 4 lifts to the
 stored block). -/
 theorem blob_item_slice {γ : Type} (dec : Bytes → Option γ) (txs : List α) (rcs : List β)
-    (h1 : txs.length < 18446744073709551616) (h2 : rcs.length < 18446744073709551616)
-    (h3 : (concatEnc encT txs ++ concatEnc encR rcs).length < 18446744073709551616) (i : Nat) :
+    (h1 : txs.length < 9223372036854775808) (h2 : rcs.length < 9223372036854775808)
+    (h3 : (concatEnc encT txs ++ concatEnc encR rcs).length < 9223372036854775808) (i : Nat) :
     (∀ h : i < txs.length, readBlob (Blob.build encT encR txs rcs).marshal (fun b => b.getTx dec i) =
         Res.ofOption (dec (encT txs[i]))) ∧
     (∀ h : i < rcs.length, readBlob (Blob.build encT encR txs rcs).marshal (fun b => b.getRc dec i) =
@@ -147,15 +126,6 @@ theorem offsets_spec (enc : α → Bytes) (items : List α) (base : Nat) :
   ⟨fun i h => offsets_getD enc items base i h, fun i j hij hj => offsets_mono enc items base i j hij hj,
    fun i h => offsets_inbounds enc items base i h⟩
 
-/-- The blob that `NewBlockTransactions` builds is exactly: transaction offsets from 0, receipt
-offsets from the end of the transactions, data = all transactions then all receipts. -/
-theorem blob_layout (txs : List α) (rcs : List β) :
-    Blob.build encT encR txs rcs =
-      { txIdx := offsets encT 0 txs,
-        rcIdx := offsets encR (concatEnc encT txs).length rcs,
-        data := concatEnc encT txs ++ concatEnc encR rcs } :=
-  build_eq encT encR txs rcs
-
 end Blob
 
 
@@ -165,9 +135,22 @@ end Blob
 `wt cfg t v`: `v` is a value of type `t` in the canonical representation (see SpecVal.lean).
 `cfg.rejectInvalidUTF8` is the decoder option `DecOptions.UTF8` in effect. -/
 
-/-- **Encoding then decoding any storable value is the identity** — nil and empty slices / maps /
+/-- **Encoding then decoding a storable value is the identity** — nil and empty slices / maps /
 byte strings kept apart, every struct field back in its place, interface values back under the
-same concrete type — for every table and every value, by induction on the type. -/
+same concrete type — for every table, by induction on the type.
+
+`wt` picks ONE representative per stored value, and says so here because it decides what "any
+storable value" means:
+ * a Go map is its entry list in the encoder's key order (a map has no order of its own);
+ * strings are valid UTF-8 only if the decoder insists (`cfg`; the configured decoder does not);
+ * an `omitempty` field that is EMPTY must be nil. This is a real restriction: the one
+   `omitempty` field of the record types, `InvokeTransaction.ProofFacts`, does NOT come back as
+   stored when it is empty-but-not-nil. The unrestricted statement is
+   `struct_roundtrip_omitempty` (decoded = normal form of stored) with the witness
+   `omitempty_empty_slice_comes_back_nil`; see there for why this is not a defect of juno;
+ * `raw` leaves (`Header.EventsBloom`, `CasmClass.Prime`, `BytecodeSegmentLengths`) are opaque items:
+   for them the statement is the identity by definition — their codecs are covered by the
+   byte-level comparison and the read-back oracle only (listed as not covered in the notes). -/
 theorem value_roundtrip (cfg : DecCfg) (t : GoType) (v : GoVal) (hok : okType t = true) (hw : wt cfg t v = true) :
     ∃ c, encodeVal t v = some c ∧ decodeVal cfg t c = some v :=
   rt_val cfg t v hok hw
@@ -202,25 +185,60 @@ theorem tables_ok :
     okType tClassDefinition = true := by
   decide
 
-/-! ### Strings that are not valid UTF-8 (defect found in round 1, fixed in /repo by c6c3e35)
+/-! ### `omitempty`: the stored value and its normal form
 
-Go strings are arbitrary bytes and the encoder writes them as they are. The decoder option
-`DecOptions.UTF8` decides whether such a text string decodes. encoder/encoder.go now sets
-`UTF8DecodeInvalid` (`cfg = ⟨false⟩`): the round trip holds for EVERY value the write path accepts
-(`value_roundtrip_all_strings`, full strength). Under the library default (`cfg = ⟨true⟩`, the
-code before the fix) it holds only for valid UTF-8 (`value_roundtrip_strict_utf8`) and
-`invalid_utf8_stored_but_unreadable` is the proved counterexample; the harness replays the same
-receipt on the real code and reports the violation again should the option be lost. -/
+`value_roundtrip` asks an empty `omitempty` field to be nil. Without that hypothesis the round trip
+is NOT the identity: -/
 
-/-- The configured decoder (lenient): round trip for every value, no condition on strings. -/
-theorem value_roundtrip_all_strings (t : GoType) (v : GoVal) (hok : okType t = true) (hw : wt ⟨false⟩ t v = true) :
-    ∃ c, encodeVal t v = some c ∧ decodeVal ⟨false⟩ t c = some v :=
-  rt_val ⟨false⟩ t v hok hw
+/-- Struct round trip without the restriction: field values are well-typed one by one
+(`wtFieldsLoose`), `omitempty` fields may hold anything; the decoded fields are `normFields` of the
+stored ones — equal, except that an empty `omitempty` field comes back as the zero value (nil). -/
+theorem struct_roundtrip_omitempty (cfg : DecCfg) (fs : List (Bytes × Bool × GoType)) (vs : List GoVal)
+    (hok : okFields fs = true) (hd : keysDistinct fs = true) (hw : wtFieldsLoose cfg fs vs = true) :
+    ∃ es, encodeFields fs vs = some es ∧
+      ∀ pre, (∀ k, keyAbsent k fs = false → mapLookup (.text k) pre = none) →
+        decodeFields cfg fs (pre ++ es) = some (normFields fs vs) := by
+  obtain ⟨es, h1, _, h3⟩ := rt_fields_norm cfg fs vs hok hd hw
+  exact ⟨es, h1, h3⟩
 
-/-- A strict decoder round-trips exactly the values whose strings are valid UTF-8 (`wt ⟨true⟩`). -/
-theorem value_roundtrip_strict_utf8 (t : GoType) (v : GoVal) (hok : okType t = true) (hw : wt ⟨true⟩ t v = true) :
-    ∃ c, encodeVal t v = some c ∧ decodeVal ⟨true⟩ t c = some v :=
-  rt_val ⟨true⟩ t v hok hw
+/-- `InvokeTransaction{TransactionHash: 1, Version: 3, ProofFacts: []felt.Felt{}}` (field order of
+the table: Tip, Nonce, MaxFee, Version, CallData, FeeDAMode, ProofFacts, …). -/
+def invokeEmptyProofFacts : GoVal :=
+  .iface 2 (.struct [.uint 0, .nil, .nil, .felt 3 0 0 0, .nil, .uint 0, .list [], .uint 0, .nil, .nil, .nil, .nil,
+    .felt 1 0 0 0, .nil, .nil, .nil])
+
+def proofFactsOf : GoVal → Option GoVal
+  | .iface _ (.struct vs) => vs[6]?
+  | _ => none
+
+def isNilVal : GoVal → Bool
+  | .nil => true
+  | _ => false
+
+set_option maxRecDepth 8000 in
+/-- Witness that the full-strength statement "decode (encode v) = v for every v the encoder
+accepts" is FALSE for `omitempty`: the transaction above is written, reads back, and its
+`ProofFacts` is nil where an empty non-nil slice was stored (same on the real code: `codec` phase).
+Decision (CONVENTIONS §5): not a defect of juno. The property asks for the nil-vs-empty distinctions
+"the hashes depend on"; `invokeTransactionHash` only tests `len(ProofFacts) > 0`, `omitempty` is
+what lets records written before the field existed decode, and `rpc/v10.AdaptTransaction` turns nil
+back into `[]` on output. The oracle therefore compares read-back with the NORMAL FORM of what was
+stored (`equal.go`), which is exactly `struct_roundtrip_omitempty`. -/
+theorem omitempty_empty_slice_comes_back_nil :
+    (proofFactsOf invokeEmptyProofFacts).map isNilVal = some false ∧
+    wt ⟨false⟩ tTransaction invokeEmptyProofFacts = false ∧
+    (((marshalVal tTransaction invokeEmptyProofFacts).bind (unmarshalVal ⟨false⟩ tTransaction)).bind
+      proofFactsOf).map isNilVal = some true := by
+  decide
+
+/-! ### Strings that are not valid UTF-8 — regression witness for a FIXED defect (c6c3e35)
+
+Go strings are arbitrary bytes and the encoder writes them as they are; `DecOptions.UTF8` decides
+whether such a text string decodes. encoder/encoder.go now sets `UTF8DecodeInvalid`
+(`cfg = ⟨false⟩`): `value_roundtrip` at that `cfg` has no condition on strings and is the statement
+about the current code. With the library default (`⟨true⟩`, the code before the fix) the round
+trip needs valid UTF-8, and the theorem below is the proved counterexample; the harness replays the
+same receipt on the real code and reports the violation again should the option be lost. -/
 
 /-- The receipt `{Reverted: true, RevertReason: "\xff"}` (all else nil/zero). -/
 def badReceipt : GoVal :=
@@ -229,7 +247,7 @@ def badReceipt : GoVal :=
 /-- Witness: the encoder accepts the receipt, the strict decoder rejects its own output, the
 lenient decoder does not. The same receipt is replayed on the real code by the harness
 (`string-with-invalid-utf8-stored-but-unreadable`). -/
-theorem invalid_utf8_stored_but_unreadable :
+theorem invalid_utf8_unreadable_before_c6c3e35 :
     wt ⟨false⟩ tTransactionReceipt badReceipt = true ∧
     (marshalVal tTransactionReceipt badReceipt).isSome = true ∧
     ((marshalVal tTransactionReceipt badReceipt).bind (unmarshalVal ⟨true⟩ tTransactionReceipt)).isNone = true ∧
@@ -351,8 +369,8 @@ transaction kinds. -/
 theorem stored_block_readback (cfg : DecCfg) (txs rcs : List GoVal)
     (hT : ∀ a ∈ txs, wt cfg tTransaction a = true ∧ fitsVal a = true)
     (hR : ∀ a ∈ rcs, wt cfg tTransactionReceipt a = true ∧ fitsVal a = true)
-    (h1 : txs.length < 18446744073709551616) (h2 : rcs.length < 18446744073709551616)
-    (h3 : (concatEnc (encItem tTransaction) txs ++ concatEnc (encItem tTransactionReceipt) rcs).length < 18446744073709551616)
+    (h1 : txs.length < 9223372036854775808) (h2 : rcs.length < 9223372036854775808)
+    (h3 : (concatEnc (encItem tTransaction) txs ++ concatEnc (encItem tTransactionReceipt) rcs).length < 9223372036854775808)
     (i : Nat) :
     (∀ h : i < txs.length,
       readBlob (Blob.build (encItem tTransaction) (encItem tTransactionReceipt) txs rcs).marshal
@@ -375,6 +393,79 @@ theorem stored_block_readback (cfg : DecCfg) (txs rcs : List GoVal)
       (fun a ha => key tTransactionReceipt a tables_ok.2.2.1 (hR a ha).1 (hR a ha).2) h1 h2 h3 i h
 
 
+/-! ### Compositions the property names: the accessors on what the node stored -/
+
+/-- Header projections on a STORED header: for every well-typed header value, the bytes
+`WriteBlockHeader` stores give, through each projection, the field of the header that was stored
+(`GetBlockHeaderHashByNumber`, `GetGlobalStateRootByBlockNumber`, `GetBlockTransactionCountByNumber`,
+`GetBlockHeaderEventsBloomByNumber`; a nil pointer field is then reported as "missing" by `nonNil`). -/
+theorem stored_header_projections (cfg : DecCfg) (hv : GoVal) (hw : wt cfg tHeader hv = true)
+    (hf : fitsVal hv = true) :
+    ∃ bs, marshalVal tHeader hv = some bs ∧ unmarshalVal cfg tHeader bs = some hv ∧
+      projField cfg pHeaderHash kHash bs = getField tHeader kHash hv ∧
+      projField cfg pHeaderGlobalStateRoot kGlobalStateRoot bs = getField tHeader kGlobalStateRoot hv ∧
+      projField cfg pHeaderTransactionCount kTransactionCount bs = getField tHeader kTransactionCount hv ∧
+      projField cfg pHeaderEventsBloom kEventsBloom bs = getField tHeader kEventsBloom hv := by
+  obtain ⟨bs, e1, e2⟩ := rt_bytes_fits cfg tHeader hv (by decide) hw hf
+  obtain ⟨a, b, c, d, _, _⟩ := header_projections_agree cfg bs hv e2
+  exact ⟨bs, e1, e2, a, b, c, d⟩
+
+/-- Per-receipt execution status and per-transaction events of a STORED block, by index: the
+partial decoder applied to item `i` of the blob gives the fields of receipt `i` that was stored. -/
+theorem stored_block_receipt_projections (cfg : DecCfg) (txs rcs : List GoVal)
+    (hR : ∀ a ∈ rcs, wt cfg tTransactionReceipt a = true ∧ fitsVal a = true)
+    (h1 : txs.length < 9223372036854775808) (h2 : rcs.length < 9223372036854775808)
+    (h3 : (concatEnc (encItem tTransaction) txs ++ concatEnc (encItem tTransactionReceipt) rcs).length < 9223372036854775808)
+    (i : Nat) (h : i < rcs.length) :
+    let stored := (Blob.build (encItem tTransaction) (encItem tTransactionReceipt) txs rcs).marshal
+    readBlob stored (fun b => b.getRc (projField cfg pReceiptExecutionStatus kReverted) i) =
+      Res.ofOption (getField tTransactionReceipt kReverted rcs[i]) ∧
+    readBlob stored (fun b => b.getRc (projField cfg pReceiptExecutionStatus kRevertReason) i) =
+      Res.ofOption (getField tTransactionReceipt kRevertReason rcs[i]) ∧
+    readBlob stored (fun b => b.getRc (projField cfg pReceiptEvents kEvents) i) =
+      Res.ofOption (getField tTransactionReceipt kEvents rcs[i]) ∧
+    readBlob stored (fun b => b.getRc (projField cfg pReceiptEvents kTransactionHash) i) =
+      Res.ofOption (getField tTransactionReceipt kTransactionHash rcs[i]) := by
+  intro stored
+  have hr := hR rcs[i] (List.getElem_mem h)
+  obtain ⟨bs, e1, e2⟩ := rt_bytes_fits cfg tTransactionReceipt rcs[i] (by decide) hr.1 hr.2
+  have henc : encItem tTransactionReceipt rcs[i] = bs := by simp [encItem, e1]
+  obtain ⟨a, b, c, d⟩ := receipt_projections_agree cfg bs rcs[i] e2
+  have sl := fun {γ : Type} (dec : Bytes → Option γ) =>
+    (blob_item_slice (encItem tTransaction) (encItem tTransactionReceipt) dec txs rcs h1 h2 h3 i).2 h
+  refine ⟨?_, ?_, ?_, ?_⟩ <;> (rw [sl, henc]) <;> simp only [a, b, c, d]
+
+/-- All transactions / all receipts of a stored block, typed (hence the counts). -/
+theorem stored_block_all (cfg : DecCfg) (txs rcs : List GoVal)
+    (hT : ∀ a ∈ txs, wt cfg tTransaction a = true ∧ fitsVal a = true)
+    (hR : ∀ a ∈ rcs, wt cfg tTransactionReceipt a = true ∧ fitsVal a = true)
+    (h1 : txs.length < 9223372036854775808) (h2 : rcs.length < 9223372036854775808)
+    (h3 : (concatEnc (encItem tTransaction) txs ++ concatEnc (encItem tTransactionReceipt) rcs).length < 9223372036854775808) :
+    let stored := (Blob.build (encItem tTransaction) (encItem tTransactionReceipt) txs rcs).marshal
+    readBlob stored (fun b => b.allTx (unmarshalVal cfg tTransaction)) = .ok txs ∧
+    readBlob stored (fun b => b.allRc (unmarshalVal cfg tTransactionReceipt)) = .ok rcs := by
+  intro stored
+  have key : ∀ (t : GoType) (a : GoVal), okType t = true → wt cfg t a = true →
+      fitsVal a = true → unmarshalVal cfg t (encItem t a) = some a := by
+    intro t a hok hw hf
+    obtain ⟨bs, e1, e2⟩ := rt_bytes_fits cfg t a hok hw hf
+    simp only [encItem, e1, Option.getD_some]
+    exact e2
+  exact blob_all (encItem tTransaction) (encItem tTransactionReceipt) (unmarshalVal cfg tTransaction)
+    (unmarshalVal cfg tTransactionReceipt) txs rcs
+    (fun a ha => key tTransaction a tables_ok.2.1 (hT a ha).1 (hT a ha).2)
+    (fun a ha => key tTransactionReceipt a tables_ok.2.2.1 (hR a ha).1 (hR a ha).2) h1 h2 h3
+
+/-- A declared class: the stored bytes (`encoder.Marshal` of the binary wrapper) give back the
+declaration height and, through the class decoder, the class. -/
+theorem declared_class_readback (cfg : DecCfg) (at_ : Nat) (cls : GoVal) (h : at_ < 18446744073709551616)
+    (hw : wt cfg tClassDefinition cls = true) (hf : fitsVal cls = true) :
+    ∃ bs, marshalVal tClassDefinition cls = some bs ∧
+      (decDeclared (encDeclared at_ bs)).map (fun (a, b) => (a, unmarshalVal cfg tClassDefinition b)) =
+        some (at_, some cls) := by
+  obtain ⟨bs, e1, e2⟩ := rt_bytes_fits cfg tClassDefinition cls (by decide) hw hf
+  exact ⟨bs, e1, by simp [decDeclared_enc at_ bs h, e2]⟩
+
 /-! ## 6. Binary codecs and database keys (db/schema.go, core/class.go, core/accessors.go) -/
 
 /-- Block numbers, (number, index) pairs and the declared-class wrapper decode to what was encoded. -/
@@ -393,7 +484,8 @@ theorem casm_metadata_roundtrip (m : CasmMeta) (hd : m.declaredAt < 184467440737
 /-- Keys: within a bucket two block numbers never share a key — neither with the 8-byte big-endian
 keys (headers, state updates, commitments) nor with the variable-length CBOR keys of the
 block-transactions bucket —, hash-keyed entries differ when the hashes differ, and keys of
-different buckets differ. So a read of record X can only return what was written for X. -/
+different buckets differ. (That a read of record X returns what was written for X, among many
+blocks, is `store_history_reads`, which uses these facts.) -/
 theorem keys_injective (b b' n m : Nat) (s s' : Bytes) (hn : n < 18446744073709551616) (hm : m < 18446744073709551616) :
     (keyByNumber b n = keyByNumber b m → n = m) ∧
     (keyBlockTransactions n = keyBlockTransactions m → n = m) ∧
@@ -401,6 +493,83 @@ theorem keys_injective (b b' n m : Nat) (s s' : Bytes) (hn : n < 184467440737095
     (b < 256 → b' < 256 → b ≠ b' → dbKey b s ≠ dbKey b' s') :=
   ⟨keyByNumber_inj b n m hn hm, keyBlockTransactions_inj n m hn hm, dbKey_suffix_inj b s s',
    fun h1 h2 h3 => dbKey_bucket_ne b b' s s' h1 h2 h3⟩
+
+/-! ## 7. The store: several blocks, by-hash lookups, revert and reorg
+
+`Store` = association list (most recent write first); `writeBlock` = the writes of
+`writeBlockContent` in its order; `deleteBlock` = the deletes of `deleteBlockContent` +
+`DeleteTransactionsAndReceipts`; readers = core/accessors.go incl. the two-step by-hash ones
+(ModelStore.lean). `BlockRec.ok`: number and transaction count fit 64 bits, no duplicate
+transaction hash / L1 message hash inside the block. `Indep a b`: different number and hash, no
+shared transaction hash or L1 message hash. -/
+
+/-- One block, any prior store: header by number and by hash, state update by number and by hash,
+commitments, the blob, the (block, index) of every transaction hash, every L1 message hash. -/
+theorem store_block_reads (s : Store) (b : BlockRec) (hok : b.ok) : Reads (writeBlock s b) b :=
+  block_reads s b hok
+
+/-- **Every block the node stores**: after any history of pairwise independent block writes, each
+block of the history still reads back through every reader (induction over the history; uses the
+injectivity of the key encodings). -/
+theorem store_history_reads (bs : List BlockRec) (s : Store) (hok : ∀ b ∈ bs, b.ok) (hp : bs.Pairwise Indep) :
+    ∀ a ∈ bs, Reads (writeAll s bs) a :=
+  history_reads bs s hok hp
+
+/-- Revert: nothing of the removed block resolves any more (by number, by block hash, by any of
+its transaction hashes, by its L1 message hashes), independent blocks are untouched. -/
+theorem store_revert (s : Store) (b : BlockRec) :
+    getHeaderByNumber (deleteBlock s b) b.number = none ∧
+    getHeaderByHash (deleteBlock s b) b.hash = none ∧
+    getStateUpdateByHash (deleteBlock s b) b.hash = none ∧
+    (∀ {α : Type} (dec : Bytes → Option α), ∀ th ∈ b.txHashes, getTxByHash dec (deleteBlock s b) th = .notFound) ∧
+    (∀ m t, (m, t) ∈ b.l1 → getL1TxHash (deleteBlock s b) m = none) ∧
+    (∀ a, a.number < 18446744073709551616 → b.number < 18446744073709551616 → Indep a b → Reads s a →
+      Reads (deleteBlock s b) a) := by
+  obtain ⟨h1, _, h3, h4, _, _, h7, h8, h9⟩ := delete_reads s b
+  exact ⟨h1, h3, h4, h7, h8, h9⟩
+
+/-- Reorg: the block stored in place of a removed one (same height allowed) reads back, and the
+removed block's hash and transaction hashes are not-found — they never resolve to the new block. -/
+theorem store_reorg (s : Store) (b b' : BlockRec) (hok : b'.ok) :
+    Reads (writeBlock (deleteBlock s b) b') b' ∧
+    (∀ {α : Type} (dec : Bytes → Option α), ∀ th ∈ b.txHashes, th ∉ b'.txHashes →
+      getTxByHash dec (writeBlock (deleteBlock s b) b') th = .notFound) ∧
+    (b.hash ≠ b'.hash → getHeaderByHash (writeBlock (deleteBlock s b) b') b.hash = none) := by
+  obtain ⟨h1, _, h3, h4⟩ := replace_reads s b b' hok
+  exact ⟨h1, h3, h4⟩
+
+/-- Transaction and receipt BY HASH, end to end: typed transactions and receipts → blob bytes →
+store → hash ↦ (block, index) ↦ blob ↦ item ↦ full decoder = what was stored. -/
+theorem stored_transaction_by_hash (cfg : DecCfg) (s : Store) (b : BlockRec) (txs rcs : List GoVal) (hok : b.ok)
+    (hblob : b.blob = (Blob.build (encItem tTransaction) (encItem tTransactionReceipt) txs rcs).marshal)
+    (hlen : b.txHashes.length = txs.length)
+    (hT : ∀ a ∈ txs, wt cfg tTransaction a = true ∧ fitsVal a = true)
+    (hR : ∀ a ∈ rcs, wt cfg tTransactionReceipt a = true ∧ fitsVal a = true)
+    (h1 : txs.length < 9223372036854775808) (h2 : rcs.length < 9223372036854775808)
+    (h3 : (concatEnc (encItem tTransaction) txs ++ concatEnc (encItem tTransactionReceipt) rcs).length < 9223372036854775808)
+    (i : Nat) (hi : i < txs.length) :
+    getTxByHash (unmarshalVal cfg tTransaction) (writeBlock s b) (b.txHashes[i]'(hlen ▸ hi)) = .ok txs[i] ∧
+    (∀ h : i < rcs.length,
+      getRcByHash (unmarshalVal cfg tTransactionReceipt) (writeBlock s b) (b.txHashes[i]'(hlen ▸ hi)) = .ok rcs[i]) := by
+  obtain ⟨_, _, _, r4, _, _, _, r8, _⟩ := block_reads s b hok
+  have loc := r8 i (hlen ▸ hi)
+  have rb := stored_block_readback cfg txs rcs hT hR h1 h2 h3 i
+  constructor
+  · simp only [getTxByHash, loc, r4, hblob]
+    exact rb.1 hi
+  · intro h
+    simp only [getRcByHash, loc, r4, hblob]
+    exact rb.2 h
+
+/-! ### `felt.Slice`: the hand-written copy of the array header -/
+
+/-- `encodeCBORArrayHeader` (core/felt/slice.go) writes the canonical head for every length that
+fits `uint32`, `decodeCBORArrayHeader` reads it back, and at 2^32 the `uint32(len(s))` conversion
+truncates (the explicit limit of the hand-written codec). -/
+theorem felt_slice_header (n : Nat) (rest : Bytes) (h : n < 4294967296) :
+    sliceHeader n = head 4 n ∧ decSliceHeader (sliceHeader n ++ rest) = some (n, (sliceHeader n).length) ∧
+    sliceHeader 4294967296 ≠ head 4 4294967296 :=
+  ⟨sliceHeader_eq_head n h, decSliceHeader_sliceHeader n rest h, sliceHeader_truncates.2⟩
 
 /-! ## Non-vacuity -/
 
@@ -430,5 +599,27 @@ example : projOK (fieldsOf tHeader) (fieldsOf pHeaderTimestamp) = false := by de
 example : CasmMeta.unmarshal (CasmMeta.marshal ⟨5, List.replicate 32 7, 9, some (List.replicate 32 1)⟩) =
     some ⟨5, List.replicate 32 7, 9, some (List.replicate 32 1)⟩ := by decide
 example : keyBlockTransactions 24 = [40, 0x18, 0x18] ∧ keyByNumber bBlockHeadersByNumber 258 = [8, 0, 0, 0, 0, 0, 0, 1, 2] := by decide
+
+-- a well-typed invoke v3 transaction with a ResourceBounds map (keys in canonical order), a state
+-- update with felt-keyed maps, a Cairo-0 class: the typed theorems are not vacuous on any table
+def exInvoke : GoVal :=
+  .iface 2 (.struct [.uint 5, .felt 9 0 0 0, .nil, .felt 3 0 0 0, .list [.felt 1 2 3 4], .uint 1, .nil, .uint 0, .list [],
+    .felt 7 7 7 7, .map [(.uint 1, .struct [.uint 10, .felt 1 0 0 0]), (.uint 2, .struct [.uint 20, .nil])],
+    .nil, .felt 1 0 0 0, .nil, .list [.felt 0 0 0 1], .list []])
+example : wt ⟨false⟩ tTransaction exInvoke = true ∧ fitsVal exInvoke = true := by decide
+def exStateUpdate : GoVal :=
+  .struct [.felt 1 1 1 1, .felt 0 0 0 0, .felt 2 2 2 2, .struct [.map [(.felt 0 0 0 0, .felt 1 0 0 0), (.felt 5 0 0 0, .nil)],
+    .map [(.felt 1 0 0 0, .map [(.felt 2 0 0 0, .felt 3 0 0 0)])], .nil, .map [], .list [.nil, .felt 4 0 0 0], .nil, .nil]]
+example : wt ⟨false⟩ tStateUpdate exStateUpdate = true ∧ fitsVal exStateUpdate = true := by decide
+def exCairo0 : GoVal :=
+  .iface 0 (.struct [.bytes [0x5b, 0x5d], .str [0x78], .list [.struct [.felt 1 0 0 0, .nil]], .list [], .nil])
+example : wt ⟨false⟩ tClassDefinition exCairo0 = true ∧ fitsVal exCairo0 = true := by decide
+-- two independent blocks in one store
+def exBlockA : BlockRec := ⟨7, [0xaa], [1], [0xa0], [[0x11], [0x12]], [([0x77], [0x11])], [2], [3]⟩
+def exBlockB : BlockRec := ⟨8, [0xbb], [4], [0xa0], [[0x21]], [], [5], [6]⟩
+example : getHeaderByHash (writeAll [] [exBlockA, exBlockB]) [0xaa] = some [1] ∧
+    getTxLocation (writeAll [] [exBlockA, exBlockB]) [0x12] = some (7, 1) ∧
+    getTxLocation (writeBlock (deleteBlock (writeAll [] [exBlockA, exBlockB]) exBlockA) ⟨7, [0xcc], [9], [0xa0], [[0x31]], [], [2], [3]⟩) [0x12] = none := by
+  decide
 
 end Juno.C07.Props
